@@ -248,6 +248,9 @@ int main(int argc, char** argv) {
             }
         }
         if (ran == 2) {
+            if (op % 4099 == (u32)ctx.shard)
+                ctx.sample(JObj().hexs("opcode", op).str("form", e.form.str()).num("second_word_needed", iexp).str("text", join(tok))
+                               .hexs("start", pc0).hexs("second_word", exp).num("fetch_mismatches", bad_second).done(), 2);
             ctx.count("fetch_observed");
             ctx.seen("nt", e.form.name);
             if (iexp)
